@@ -174,7 +174,7 @@ def generate(rng, seed, size):
         forced_style = (not robust) and ei < len(casing.STYLES)
         if forced_style:
             style = casing.STYLES[ei]
-            nvar = max(nvar, 2)
+            nvar = max(nvar, 3)
         simple = list(casing.SIMPLE_IDENTS)
         rng.shuffle(simple)
         lifetime = rng.random() < 0.08 and not robust
@@ -189,8 +189,9 @@ def generate(rng, seed, size):
                 # systematic part of the robust corpus: escaped braces in fixed names of every variant kind
                 kind = ["named", "tuple", "unit"][ei % 3]
                 disabled = False
-            if forced_style and vi in (0, 1):
-                ident = (["ÉcranTitre", "ÜberGross", "ÑandúÁgil"] if vi == 0 else ["Http2", "Ipv6Only", "Sha256Sum"])[ei % 3]
+            if forced_style and vi in (0, 1, 2):
+                ident = [["ÉcranTitre", "ÜberGross", "ÑandúÁgil"], ["Http2", "Ipv6Only", "Sha256Sum"],
+                         ["_reserved", "raw__mode", "trailing_"]][vi][ei % 3]
                 if ident in simple:
                     simple.remove(ident)
                 kind = "unit"
@@ -200,7 +201,7 @@ def generate(rng, seed, size):
             brace_name = ["{{literal}}", "a{{b", "}}x{{", "set{{}}", "{{", "}}", "{{0}}", "x{{y}}z", "{{{{"][ei % 9] if forced_braces else None
             if kind == "unit":
                 attrs, canon = gen_fixed_attrs(rng)
-                if forced_style and vi in (0, 1):
+                if forced_style and vi in (0, 1, 2):
                     attrs, canon = [], None
                 if forced_braces:
                     attrs, canon = ["#[strum(to_string = %s)]" % rs(brace_name)], brace_name
